@@ -909,18 +909,24 @@ type splitSess struct {
 
 var (
 	splitSessMu  sync.Mutex
-	splitSessVal *splitSess
+	splitSessVal [2]*splitSess
 )
 
-func splitSession() *splitSess {
+// splitSession: the shared connected client, without or with Config.GlobalFormat.
+func splitSession(gf bool) *splitSess {
 	splitSessMu.Lock()
 	defer splitSessMu.Unlock()
-	if splitSessVal == nil {
+	i := 0
+	if gf {
+		i = 1
+	}
+	if splitSessVal[i] == nil {
 		cfg := drive.BaseConfig()
 		cfg.PingDelay = -1
-		splitSessVal = &splitSess{s: drive.Start(cfg)}
+		cfg.GlobalFormat = gf
+		splitSessVal[i] = &splitSess{s: drive.Start(cfg)}
 	}
-	return splitSessVal
+	return splitSessVal[i]
 }
 
 // sync sends a marker through the client's own send queue and returns what the client
@@ -954,7 +960,7 @@ func splitSimpleName(s string) bool {
 }
 
 // splitWireOracle evaluates the statement on the lines one Cmd call produced.
-func splitWireOracle(op string, mel int, rest []string, lines []string) string {
+func splitWireOracle(op string, gf bool, mel int, rest []string, lines []string) string {
 	switch op {
 	case "join", "list":
 		cmd := strings.ToUpper(op)
@@ -994,19 +1000,25 @@ func splitWireOracle(op string, mel int, rest []string, lines []string) string {
 		if op == "notice" {
 			cmd = "NOTICE"
 		}
-		target, text := rest[0], rest[1]
-		wrapL, wrapR := "", ""
+		// the last parameter as Send splits it: Action's frame, then (GlobalFormat) Fmt
+		target, last := rest[0], rest[1]
 		if op == "action" {
-			if strings.Contains(text, "\x01") {
-				return ""
+			last = "\x01ACTION " + last + "\x01"
+		}
+		if gf && last != "" {
+			last = girc.Fmt(last)
+		}
+		// every piece is CTCP-wrapped (same tag) iff the message, as formatted, is a CTCP
+		text, wrapL, wrapR := last, "", ""
+		if ok, tag, inner := splitSpecCTCP(cmd, []string{target, last}); ok {
+			if !strings.Contains(last[1:], " ") {
+				return "" // a bare tag: nothing to split
 			}
-			wrapL, wrapR = "\x01ACTION ", "\x01"
-		} else if ok, _, _ := splitSpecCTCP(cmd, []string{target, text}); ok {
-			return ""
+			text, wrapL, wrapR = inner, "\x01"+tag+" ", "\x01"
 		}
 		head := cmd + " " + target + " "
 		room := mel - len(head) - 1 - len(wrapL) - len(wrapR)
-		full := splitWireLen(0, cmd, []string{target, wrapL + text + wrapR})
+		full := splitWireLen(0, cmd, []string{target, last})
 		if len(lines) == 1 && full <= mel {
 			return "" // sent as it is
 		}
@@ -1085,8 +1097,13 @@ func splitRunWire(c Case) Result {
 		return Result{Obs: "?bad-args"}
 	}
 	op := c[0]
+	gf := strings.HasPrefix(op, "g") // gmsg, gnotice, gaction: Config.GlobalFormat
+	sig := op
+	if gf {
+		op = op[1:]
+	}
 	prev, lines, rest := splitTakeConn(c[1:])
-	x := splitSession()
+	x := splitSession(gf)
 	splitSessMu.Lock()
 	defer splitSessMu.Unlock()
 	cl := x.s.C
@@ -1122,7 +1139,14 @@ func splitRunWire(c Case) Result {
 	}
 	wrote := x.sync(mark)
 	res := Result{Obs: strconv.Itoa(mel) + ";" + splitCounted(wrote)}
-	res.Sig = op + "/" + splitCountClass(len(wrote))
+	res.Sig = sig + "/" + splitCountClass(len(wrote))
+	if gf && len(rest) >= 2 {
+		if ok, _, _ := splitSpecCTCP("PRIVMSG", []string{"x", rest[1]}); !ok {
+			if ok2, _, _ := splitSpecCTCP("PRIVMSG", []string{"x", girc.Fmt(rest[1])}); ok2 {
+				res.Sig += "/ctcp-by-fmt"
+			}
+		}
+	}
 	if mel <= 0 {
 		res.Sig += "/nonpositive"
 	}
@@ -1136,7 +1160,7 @@ func splitRunWire(c Case) Result {
 		res.Sig += "/reconnect"
 	}
 	// the lines are judged against the limit of THIS connection
-	res.Oracle = splitWireOracle(op, want, rest, wrote)
+	res.Oracle = splitWireOracle(op, gf, want, rest, wrote)
 	if res.Oracle == "" && mel != want {
 		res.Oracle = fmt.Sprintf("limit-stale: MaxEventLength is %d after the reconnect, this server's 005 lines give %d", mel, want)
 	}
@@ -1224,6 +1248,16 @@ func init() {
 					mk(op, nil, "#chan", ""),
 				)
 			}
+			// Config.GlobalFormat: {ctcp}...{ctcp} becomes a CTCP only through Fmt
+			act := "{ctcp}ACTION " + strings.Repeat("waves and waves ", 40) + "{ctcp}"
+			for _, op := range []string{"gmsg", "gnotice", "gaction"} {
+				out = append(out,
+					mk(op, nil, "#chan", act), mk(op, small, "#chan", act), mk(op, nil, "#chan", "{ctcp}ACTION waves{ctcp}"),
+					mk(op, small, "#chan", "{ctcp}VERSION{ctcp}"), mk(op, small, "#chan", "{b}bold{b} {red}red {red,blue}both{c} "+long),
+					mk(op, small, "#chan", "{unknown} {} { } {b {red,} {,blue} }{ "+long), mk(op, small, "#chan", "plain "+long),
+					mk(op, small, "#chan", "\x01ACTION {b}"+long+"{ctcp}"), mk(op, nil, "#chan", ""), mk(op, nil, "#chan", "{b}"),
+					re(op, ext, nil, "#chan", act))
+			}
 			return out
 		},
 		Gen: func(r *rand.Rand) Case {
@@ -1247,8 +1281,27 @@ func init() {
 			if r.Intn(4) == 0 {
 				prev = splitPrevLines(r)
 			}
+			text := splitText(r, w, splitMode(r))
+			if r.Intn(4) == 0 {
+				// a client with Config.GlobalFormat: format tokens, known and unknown, and CTCPs
+				// written with the {ctcp} token
+				op = "g" + op
+				toks := []string{"{b}", "{red}", "{red,blue}", "{c}", "{r}", "{i}", "{ul}", "{ctcp}", "{unknown}", "{RED}", "{}", "{", "}", "{red,}", "{,blue}", "{b }"}
+				ws := strings.Split(text, " ")
+				for k := r.Intn(4); k > 0 && len(ws) > 0; k-- {
+					i := r.Intn(len(ws))
+					ws[i] = toks[r.Intn(len(toks))] + ws[i]
+				}
+				text = strings.Join(ws, " ")
+				switch r.Intn(5) {
+				case 0, 1:
+					text = "{ctcp}" + Pick(r, "ACTION", "ACTION", "PING", "X1") + " " + strings.ReplaceAll(text, "\x01", "") + "{ctcp}"
+				case 2:
+					text = "{ctcp}" + Pick(r, "VERSION", "action x", "") + "{ctcp}"
+				}
+			}
 			c := append(Case{op}, splitConnArgs(prev, lines)...)
-			return append(c, target, splitText(r, w, splitMode(r)))
+			return append(c, target, text)
 		},
 		Run: splitRunWire,
 	})
